@@ -11,7 +11,8 @@ NS = {
 }
 
 # ECMA-376 Part 1, 17.2 (body), 17.4 (tables), 17.3 (paragraphs, runs), 17.5.2 (structured document tags at block, row,
-# cell and run level), 17.13.5 (revisions: w:ins / w:moveTo are current text, w:del / w:moveFrom removed text), Part 3 (markup compatibility).
+# cell and run level), a VML text box directly in a run (w:pict, documents in compatibility mode: visible text; the same
+# w:pict inside mc:Fallback is the excluded duplicate of the mc:Choice), 17.13.5 (revisions: w:ins / w:moveTo are current text, w:del / w:moveFrom removed text), Part 3 (markup compatibility).
 BODY = """
 body            = w:body -> p tbl sdt_b cx_b sectPr
 sectPr          = w:sectPr
@@ -45,7 +46,10 @@ sdtContent_r    = w:sdtContent -> r hyperlink
 del             = w:del -> r_del
 r_del           = w:r -> rPr delText
 delText         = w:delText ; text=excl
-r               = w:r -> rPr t tab br instrText AlternateContent
+r               = w:r -> rPr t tab br instrText AlternateContent pict_r
+pict_r          = w:pict -> vshape_r
+vshape_r        = v:shape -> vtextbox_r
+vtextbox_r      = v:textbox -> txbxContent
 rPr             = w:rPr
 t               = w:t ; text=vis
 tab             = w:tab
